@@ -360,7 +360,15 @@ func checkC20(c *Ctx) (string, []string) {
 	{
 		// the (η2, κ) arm is the same-epoch arm
 		same := condEdges(gs, func(v ssa.Value) (bool, bool) {
-			return abbr(exprStr(v, shapeOpts)) == "(((int(post.GetTau(POST)) - types.RotationPeriod) / types.EpochLength) == (int(post.GetTau(POST)) / types.EpochLength))", true
+			// ⌊(τ'−R)/E⌋ = ⌊τ'/E⌋, written with == or != and the operands in either order
+			a, b := "((int(post.GetTau(POST)) - types.RotationPeriod) / types.EpochLength)", "(int(post.GetTau(POST)) / types.EpochLength)"
+			switch abbr(exprStr(v, shapeOpts)) {
+			case "(" + a + " == " + b + ")", "(" + b + " == " + a + ")":
+				return true, true
+			case "(" + a + " != " + b + ")", "(" + b + " != " + a + ")":
+				return true, false
+			}
+			return false, false
 		})
 		ok := len(same) == 1
 		allInstrs(gs, func(in ssa.Instruction) {
